@@ -238,7 +238,7 @@ def run(ck):
         # a counted variant that frames a window of the buffer through its plain sibling (flenp_buffer_encode(k, lpb, &w)):
         # the sibling is looked into, so that the region it hands on is read in terms of the caller's buffer
         sib = fn[:-2] if fn.endswith('_n') else None
-        if sib and not any(p.calls(callee) for p in ps) and any(p.calls(sib) for p in ps):
+        if sib and any(p.calls(sib) for p in ps):
             try:
                 ps = sym.Engine(u, sizeof=so, inline={'byte_buffer_rest', 'byte_buffer_avail', sib}, other_units=[ub]).paths(fn)
             except (sym.Unsupported, sym.PathLimit) as e:
